@@ -35,7 +35,7 @@ def history(rnd, length):
     for _ in range(length):
         k = rnd.choice(["set", "set", "setvar", "op", "push", "len", "print", "printel", "alias", "clone", "join", "bump", "fresh", "same",
                         "is", "eq", "nest_set", "nest_read", "remove", "reverse", "symidx", "clone_push_eq", "lit_from_elems", "nest_chain",
-                        "mset", "mset", "mop", "mread", "mread", "mlen", "mcontains", "mremove", "mreplace", "mclear", "msetk", "mlit_from_elems"])
+                        "mset", "mset", "mop", "mread", "mread", "mlen", "mcontains", "mremove", "mreplace", "mclear", "msetk", "mlit_from_elems", "mremove_or", "mreplace_get"])
         mx = V(rnd.choice(maps))
         key = S(rnd.choice(KEYS))
         x = V(rnd.choice(live))
@@ -83,6 +83,11 @@ def history(rnd, length):
             out.append(("print", ("mcall", mx, "remove", [key])))
         elif k == "mreplace":
             out.append(("print", ("mcall", mx, "replace", [key, arg(rnd)])))
+        elif k == "mremove_or":
+            # the present result of a built-in, taken through `or`, is a plain value afterwards
+            out += [("assign", "tr", ("or", ("mcall", mx, "remove", [key]), I(0))), ("print", B("+", V("tr"), I(1)))]
+        elif k == "mreplace_get":
+            out += [("expr", ("mcall", mx, "replace", [key, I(4)])), ("assign", "tg", ("get", ("mcall", mx, "replace", [key, arg(rnd)]))), ("print", B("-", V("tg"), I(1)))]
         elif k == "mclear":
             out.append(("expr", ("mcall", mx, "clear", [])))
         elif k == "msetk":
